@@ -31,11 +31,15 @@ Definition split_on (sep : byte) (l : bytes) : list bytes := split_on_acc sep l 
 
 Definition numv (l : bytes) : N := match dec_to_N l with Some v => v | None => 0 end.
 
-Definition hash32 (l : bytes) : N :=
-  fold_left (fun h b => (h * 16777619 + b2N b + 1) mod 4294967296) l 0.
+(* a position-sensitive checksum without division: a = sum of (byte+1), b = sum of the running a *)
+Fixpoint sums (l : bytes) (a b : N) : N * N :=
+  match l with
+  | [] => (a, b)
+  | x :: r => let a' := a + b2N x + 1 in sums r a' (b + a')
+  end.
 Definition digest (l : bytes) : bytes :=
   if Nat.leb (length l) 24 then bs "=" ++ hex_encode l
-  else bs "#" ++ dec (len l) ++ bs "." ++ dec (hash32 l).
+  else let '(a, b) := sums l 0 0 in bs "#" ++ dec a ++ bs "." ++ dec b.
 
 (* ---- lru ---------------------------------------------------------------------------------- *)
 Definition size_ok (n : N) : bool :=
